@@ -428,7 +428,7 @@ func (vt *Model) il(ps int) {
 	}
 
 	if int(vt.margin.bottom-vt.cursor.row) < (ps - 1) {
-		ps = int(vt.margin.bottom - vt.cursor.row)
+		ps = int(vt.margin.bottom-vt.cursor.row) + 1
 	}
 
 	// move the lines first
@@ -473,7 +473,7 @@ func (vt *Model) dl(ps int) {
 	}
 
 	if int(vt.margin.bottom-vt.cursor.row) < (ps - 1) {
-		ps = int(vt.margin.bottom - vt.cursor.row)
+		ps = int(vt.margin.bottom-vt.cursor.row) + 1
 	}
 
 	for r := vt.cursor.row; r <= vt.margin.bottom; r += 1 {
